@@ -1650,7 +1650,7 @@ class InventoryTreeTransform(DiskTreeTransform):
         except KeyError:
             return
         try:
-            mode = os.stat(self._tree.abspath(old_path)).st_mode
+            mode = os.lstat(self._tree.abspath(old_path)).st_mode
         except (FileNotFoundError, NotADirectoryError):
             # Either old_path doesn't exist, or the parent of the
             # target is not a directory (but will be one eventually)
